@@ -1,8 +1,7 @@
 package gengorums
 
 var rpcSignature = `func (n *Node) {{$method}}(` +
-	`ctx {{$context}}, in *{{$in}}` +
-	`{{perNodeFnType .GenFile .Method ", f"}}) (resp *{{$customOut}}, err error) {
+	`ctx {{$context}}, in *{{$in}}) (resp *{{$out}}, err error) {
 `
 
 var rpcVar = `
@@ -16,18 +15,12 @@ var rpcBody = `	cd := {{$callData}}{
 		Message:  in,
 		Method: "{{$fullName}}",
 	}
-{{- if hasPerNodeArg .Method}}
-	{{$protoMessage := use "protoreflect.ProtoMessage" $genFile}}
-	cd.PerNodeArgFn = func(req {{$protoMessage}}, nid uint32) {{$protoMessage}} {
-		return f(req.(*{{$in}}), nid)
-	}
-{{- end}}
 
 	res, err := n.RawNode.RPCCall(ctx, cd)
 	if err != nil {
 		return nil, err
 	}
-	return res.(*{{$customOut}}), err
+	return res.(*{{$out}}), err
 }
 `
 
